@@ -265,6 +265,24 @@ func (e *Eng) execAssign(st *State, s *ast.AssignStmt) *State {
 	if st.dead {
 		return nil
 	}
+	// assignment anchors: at `assign <lhs text>` requires E   (rhs0 = the value being stored)
+	if e.con != nil && len(e.con.At) > 0 && len(s.Lhs) == 1 {
+		key := "assign " + e.srcFull(s.Lhs[0])
+		if cls, ok := e.con.At[key]; ok {
+			e.con.atUsed[key] = true
+			env := e.specEnvFromState(st)
+			env["rhs0"] = vals[0]
+			for _, cl := range cls {
+				switch cl.Kind {
+				case "requires":
+					g := e.evalSpec(st, cl.Expr, env, e.oldEnv)
+					e.oblige(st, "at", key+" requires "+cl.Src, g.T, s.Pos())
+				case "ghost":
+					st.vars[e.ghosts[cl.Name]] = e.evalSpec(st, cl.Expr, env, e.oldEnv)
+				}
+			}
+		}
+	}
 	for i, l := range s.Lhs {
 		v := vals[i]
 		if v.Sort == "Nil" {
@@ -520,6 +538,11 @@ func (e *Eng) ghostsAssignedIn(n ast.Node) map[types.Object]bool {
 			keys := []string{t, "defer " + t}
 			if ord, ok := e.callOrd[c]; ok {
 				keys = append(keys, fmt.Sprintf("%s#%d", t, ord))
+			}
+			for k := range e.con.At {
+				if strings.HasSuffix(k, "...") && strings.HasPrefix(t, strings.TrimSuffix(k, "...")) {
+					keys = append(keys, k)
+				}
 			}
 			for _, k := range keys {
 				for _, cl := range e.con.At[k] {
